@@ -185,6 +185,14 @@ where
     }
 
     let input = static_dims!(input, 4, "NCHW")?;
+
+    // The im2col transform distinguishes image elements from padding by their
+    // offsets. This requires that different rows and columns of the image have
+    // different offsets, which is not the case for a broadcasted input.
+    let has_zero_stride = (2..4).any(|dim| input.size(dim) > 1 && input.stride(dim) == 0);
+    let input_copy = has_zero_stride.then(|| input.to_tensor_in(pool).auto_return(pool));
+    let input = input_copy.as_ref().map(|t| t.view()).unwrap_or(input);
+
     let [batch, in_c, in_h, in_w] = input.shape();
 
     let kernel = static_dims!(kernel, 4, "OCHW")?;
